@@ -6,6 +6,7 @@ Commands (JSON on stdout):
                             simplifier.simplify_inv_subs, simplifier.check_results, utils.get_match_indexes and
                             numpy.random.shuffle (call made by duplicate_checker.main).  One JSON document per N.
   uniq MAXLEN NSYM          real utils.get_unique_indexes / get_match_indexes on every list over NSYM symbols up to MAXLEN
+  unmerge                   stdin: crafted library files; real simplifier.check_results on each; files afterwards + to_change
 """
 import contextlib
 import csv
@@ -172,6 +173,44 @@ def uniq_sweep(maxlen, nsym):
     json.dump({"gui": out, "gmi": gm}, sys.stdout)
 
 
+def unmerge_cases():
+    """stdin: [{n, all, uniq, matches, subs}]; runs the REAL simplifier.check_results on crafted library files"""
+    import shutil
+    import tempfile
+    import esr.generation.simplifier as simplifier
+    cases = json.load(sys.stdin)
+    out = []
+    for c in cases:
+        d = tempfile.mkdtemp(prefix="c03u.", dir=os.environ.get("ESRV_TMP", "/var/tmp"))
+        n = c["n"]
+        try:
+            with open(d + '/all_equations_%i.txt' % n, 'w') as f:
+                f.write("".join(s + "\n" for s in c["all"]))
+            with open(d + '/unique_equations_%i.txt' % n, 'w') as f:
+                f.write("".join(s + "\n" for s in c["uniq"]))
+            with open(d + '/matches_%i.txt' % n, 'w') as f:
+                f.write("".join("%d\n" % m for m in c["matches"]))
+            with open(d + '/inv_subs_%i.txt' % n, 'w') as f:
+                csv.writer(f, delimiter=';').writerows(c["subs"])
+            buf = io.StringIO()
+            with contextlib.redirect_stdout(buf):
+                simplifier.check_results(d, n)
+            txt = buf.getvalue()
+            tc = []
+            if 'Need to change' in txt:
+                seg = txt.split('Need to change', 1)[1].split('Loading all equations', 1)[0]
+                for ln in seg.splitlines()[1:]:
+                    m = re.match(r"^\[(?:np\.int64\()?(\d+)\)?, ", ln)
+                    if m:
+                        tc.append(int(m.group(1)))
+            out.append({"to_change": tc, "uniq": _lines(d + '/unique_equations_%i.txt' % n),
+                        "matches": [int(float(v)) for v in _lines(d + '/matches_%i.txt' % n)],
+                        "subs": _rows(d + '/inv_subs_%i.txt' % n)})
+        finally:
+            shutil.rmtree(d, ignore_errors=True)
+    json.dump(out, sys.stdout)
+
+
 if __name__ == "__main__":
     cmd = sys.argv[1]
     if cmd == "trace":
@@ -179,3 +218,5 @@ if __name__ == "__main__":
         json.dump(res, sys.stdout)
     elif cmd == "uniq":
         uniq_sweep(int(sys.argv[2]), int(sys.argv[3]))
+    elif cmd == "unmerge":
+        unmerge_cases()
